@@ -99,7 +99,7 @@ def actor_attr(lib, channel, debut=False, interact=False, extra=()):
     if lib != "std" or False:
         parts.append('lib = "%s"' % lib)
     if channel is not None:
-        parts.append("channel = %d" % channel)
+        parts.append("channel = %s" % channel)
     if debut:
         parts.append("debut")
     if interact:
